@@ -1,4 +1,5 @@
 mod c13;
+mod c19;
 mod fsprops;
 mod pipeline;
 mod model;
@@ -23,6 +24,7 @@ fn main() {
     let own_scratch = std::env::var("LNV_SCRATCH").is_err();
     match prop.as_str() {
         "C13" => c13::run(&tier, seed, &out),
+        "C19" => c19::run(&tier, seed, &out),
         "C10" | "C11" | "C12" => fsprops::run(&prop, &tier, seed, &out),
         _ => {
             eprintln!("usage: lnv <property> --tier quick|thorough --seed N --out report.json");
